@@ -120,6 +120,16 @@ class TupleOf(D):
         return tuple(e.make(it, f"{name}.{i}", idx) for i, e in enumerate(self.elts))
 
 
+def _widen(sizes):
+    """Thorough tier: bounded scopes (list lengths, numbers of symbolic keys) that are a range get one more size."""
+    import os
+
+    sizes = list(sizes)
+    if os.environ.get("PYVC_TIER") == "thorough" and len(sizes) > 1 and sizes == list(range(sizes[0], sizes[-1] + 1)):
+        return sizes + [sizes[-1] + 1]
+    return sizes
+
+
 class ListOf(D):
     """A list whose length is one of the given concrete lengths (fork) - complete only for those lengths."""
 
@@ -128,8 +138,9 @@ class ListOf(D):
         self.lengths = list(lengths)
 
     def make(self, it, name, idx=()):
-        n = it.path.choose([(n, True) for n in self.lengths], f"len:{name}")
-        it.path.bounded_inputs.add(f"{name}: list length <= {max(self.lengths)}")
+        lengths = _widen(self.lengths)
+        n = it.path.choose([(n, True) for n in lengths], f"len:{name}")
+        it.path.bounded_inputs.add(f"{name}: list length <= {max(lengths)}")
         return [self.elt.make(it, f"{name}[{i}]", idx) for i in range(n)]
 
 
@@ -291,9 +302,10 @@ class KeyedDict(D):
         for k, t in self.optional.items():
             if it.path.choose([(False, True), (True, True)], f"key:{name}[{k!r}]"):
                 d[k] = t.make(it, f"{name}[{k!r}]", idx)
-        n = it.path.choose([(n, True) for n in self.sizes], f"size:{name}")
-        if max(self.sizes) > 0:
-            it.path.bounded_inputs.add(f"{name}: at most {max(self.sizes)} symbolic keys")
+        sizes = _widen(self.sizes)
+        n = it.path.choose([(n, True) for n in sizes], f"size:{name}")
+        if max(sizes) > 0:
+            it.path.bounded_inputs.add(f"{name}: at most {max(sizes)} symbolic keys")
         for i in range(n):
             k = self.key.make(it, f"{name}.key{i}", idx)
             for other in list(d.keys()):
